@@ -45,6 +45,29 @@ def onRequest (r : Reg) (e : Entry) : Reg × ReqResult :=
     | .error _ => (r, .cancelBusy)
     | .ok r' => ({ r' with stored := e.id :: r'.stored }, .accepted)
 
+/-! The request handlers are NOT one atomic step: the "id known?" test runs first, then several Lightning calls
+(spendable / receivable balance, probe payment) during which other messages are handled (the CLN plugin runs
+every incoming message in its own goroutine), and only then the lock is taken.  `passesIdTest` and
+`commitRequest` are the two halves; any operations may happen in between. -/
+
+/-- first half: the test at the top of the handler -/
+def passesIdTest (r : Reg) (e : Entry) : Bool := !known r e.id
+
+/-- second half, when the Lightning calls have returned: take the lock; then (fix e55bb17) look at the store again
+    and give the lock back if a swap with this id has been stored in the meantime -/
+def commitRequest (r : Reg) (e : Entry) : Reg × ReqResult :=
+  match lockSwap r e with
+  | .error .idInUse => (r, .refusedKnownId)
+  | .error .channelBusy => (r, .cancelBusy)
+  | .ok r' => if r.stored.contains e.id then (r, .refusedKnownId) else ({ r' with stored := e.id :: r'.stored }, .accepted)
+
+/-- the second half as it was before the fix: the lock alone decided -/
+def commitRequestOld (r : Reg) (e : Entry) : Reg × ReqResult :=
+  match lockSwap r e with
+  | .error .idInUse => (r, .refusedKnownId)
+  | .error .channelBusy => (r, .cancelBusy)
+  | .ok r' => ({ r' with stored := e.id :: r'.stored }, .accepted)
+
 inductive Route where
   | unknownSwap | wrongSender | toSwap (e : Entry)
   deriving DecidableEq, Repr
@@ -56,12 +79,13 @@ def routeMsg (r : Reg) (id sender : String) : Route :=
   | some e => if e.peer == sender then .toSwap e else .wrongSender
 
 inductive Op where
-  | lock (e : Entry) | remove (id : String) | request (e : Entry)
+  | lock (e : Entry) | remove (id : String) | request (e : Entry) | commit (e : Entry)
 
 def apply (r : Reg) : Op → Reg
   | .lock e => match lockSwap r e with | .ok r' => r' | .error _ => r
   | .remove id => removeActive r id
   | .request e => (onRequest r e).1
+  | .commit e => (commitRequest r e).1
 
 def RegInv (r : Reg) : Prop :=
   (r.active.map (fun a => clnStyle a.scid)).Nodup ∧ (r.active.map (·.id)).Nodup
